@@ -225,7 +225,8 @@ def random_jobs(rng, n, tid0):
 
 def run(tier, seed):
     rng = random.Random(seed * 49979687 + 10)
-    mcs = [core.mc("MC_Reseq", "MC_Reseq" if tier == "quick" else "MC_Reseq_L5")]
+    mcs = [core.mc("MC_Reseq", "MC_Reseq" if tier == "quick" else "MC_Reseq_L5"),
+           core.apalache("LimbLemma", "Lemma"), core.apalache("LimbLemma", "NoCarry", expect_violation=True)]    # the limb lemma at base 65536
     calls, gen = core.generate("MC_Reseq", "MC_Reseq_gen")
     calls = core.cap(calls, 2500 if tier == "quick" else 24634, random.Random(seed + 5))
     jobs = from_tlc(rng, calls, tier, 1)
